@@ -173,6 +173,7 @@ func main() {
 	solverKind := fs.String("solver", "z3", "z3|z3-new|cvc5")
 	evOut := fs.String("evidence", "", "evidence path (default <verif>/evidence/<id>.json)")
 	cpuprof := fs.String("cpuprofile", "", "write a CPU profile")
+	vector := fs.String("vector", "", "debug: run the harness concretely on the inputs of this replay file")
 	fs.Parse(os.Args[2:])
 	if *id == "" {
 		fmt.Fprintln(os.Stderr, "missing -id")
@@ -185,6 +186,7 @@ func main() {
 	if s := os.Getenv("VERIF_SEED"); s != "" {
 		seed, _ = strconv.Atoi(s)
 	}
+	debugVector = *vector
 	if *cpuprof != "" {
 		f, _ := os.Create(*cpuprof)
 		pprof.StartCPUProfile(f)
@@ -240,6 +242,8 @@ type replayRun struct {
 	result   string
 	out      []string
 }
+
+var debugVector string
 
 func run(id, tier, repo, verif, only string, workers int, trace, noReplay bool, solverKind, evOut string, seed int) int {
 	start := time.Now()
@@ -449,6 +453,22 @@ func run(id, tier, repo, verif, only string, workers int, trace, noReplay bool, 
 				Prog: prog, Stubs: stubs, Summaries: sums, MaxSteps: maxSteps, MaxPaths: maxPaths,
 				QueryTimeout: qTimeout, Workers: workers, Solver: solverKind, Trace: trace,
 				Deadline: time.Now().Add(budget), Tier: tier, KnownActive: knownActive, DropGo: dropgo,
+			}
+			if debugVector != "" {
+				b, err := os.ReadFile(debugVector)
+				if err != nil {
+					return fail("%v", err)
+				}
+				var doc struct {
+					Runs []struct {
+						Inputs map[string]uint64 `json:"inputs"`
+					} `json:"runs"`
+				}
+				if err := json.Unmarshal(b, &doc); err != nil || len(doc.Runs) == 0 {
+					return fail("bad vector file")
+				}
+				ec.Concrete = doc.Runs[0].Inputs
+				ec.Workers = 1
 			}
 			res := interp.Explore(ec, fn)
 			rep := harnessReport{
